@@ -198,6 +198,27 @@ def cmd_check(pid, tier, seed):
         if unknown:
             violations.append((j, r, unknown))
 
+    scan_info = None
+    if pid == 'C16':
+        examined, offenders, errors = vplib.static_scan(workroot)
+        scan_info = {'static_lifetime_objects_examined': examined, 'mutable': offenders, 'errors': errors}
+        obligations += len(examined)
+        discharged += len(examined) - len(offenders)
+        if errors or not examined:
+            r = vplib.JobResult(vplib.Job('static-scan', '', []))
+            r.reason = 'static scan could not run: %s' % (errors or 'no static-lifetime objects found (expected the descriptor tables)')
+            undecided.append(r)
+        if offenders:
+            outdir = os.path.join(VERIF, 'replay', 'out', pid)
+            os.makedirs(outdir, exist_ok=True)
+            path = os.path.join(outdir, 'static_scan.json')
+            json.dump({'property': pid, 'obligation': 'static-scan: every static-lifetime object of the library is const',
+                       'failed': offenders, 'verifier_output': 'goto-instrument --show-symbol-table: mutable static-lifetime objects found',
+                       'native_program': None}, open(path, 'w'), indent=1)
+            sys.stderr.write('  failed obligation C16/static-scan: %s\n' % offenders[:3])
+            scan_violation = 'VIOLATION property=%s replay=%s no-failing-input-found' % (pid, path)
+        else:
+            scan_violation = None
     for j, f in knowns:
         print('KNOWN-FINDING: property=%s %s [%s]' % (pid, f.get('what', ''), j.name))
     vio_lines = []
@@ -208,6 +229,8 @@ def cmd_check(pid, tier, seed):
         if not reproduced:
             line += ' no-failing-input-found'
         vio_lines.append(line)
+    if pid == 'C16' and scan_violation:
+        vio_lines.append(scan_violation)
     for r in undecided:
         sys.stderr.write('UNDECIDED obligation %s (%s): %s\n' % (r.job.name, r.job.config, r.reason[:600]))
 
@@ -236,6 +259,7 @@ def cmd_check(pid, tier, seed):
         'tool_warnings': sorted(warnings)[:20],
         'samples': samples,
         'known_findings_listed': [f.get('what') for _, f in knowns],
+        'static_scan': scan_info,
         'explanation': ('Contract-based deductive verification of the real C code with CBMC code contracts; '
                         'each named obligation = one function enforced against one contract with callees replaced by their contracts. '
                         + ('Some obligations are BOUNDED stand-ins (listed under bounded_stand_ins) and are not counted as proof.' if is_bounded_mix else
